@@ -344,6 +344,12 @@ func runOne(out *tr.Writer, hid, hi int, h Hist, cont string, variant int) {
 		s.reach(99, "out")
 		s.can(a, 99, "out")
 	} else {
+		// rand mode: the generated query sequence first (it decides what the cache holds), then every question
+		for _, raw := range h.Qs {
+			var q []any
+			json.Unmarshal(raw, &q)
+			s.reach(int(q[0].(float64)), q[1].(string))
+		}
 		for _, d := range []string{"out", "in"} {
 			for i := range nodes {
 				s.reach(nodes[(i+variant)%len(nodes)], d)
